@@ -17,8 +17,14 @@ RULE = ("one case = one dedicated-process comparison run of the real Equalizer o
         "fully / closed after n / consumer raising after n / id source raising after n; observed: polls per task, "
         "tasks per worker, state of every worker when the generator stops and after the idle worker's next poll, "
         "births/deaths/kills, where the parent blocks if it does; quick tier also two real-process anchor scripts "
-        "(unloadable answers; idle worker SIGKILLed between replays); non-trivial = at least one fault, unusable "
-        "answer or an abandoned run; distinct = distinct case")
+        "(unloadable answers; idle worker SIGKILLed between replays); also SEVERAL runs alive in one simulated process "
+        "(2-3 equalizers built directly or by one PlaybackStudio - one lazy generator per category -, consumed back to "
+        "back, round robin, one ahead, in reverse or in random order, any fault / abandonment in any of them): every "
+        "run is observed like a single run (worker ordinals local to the run; a finished run's workers are looked at "
+        "once every worker of the process had its next poll) and compared with the same run alone; and ONE run started "
+        "through PlaybackStudio with every fault kind at every position (the run's equalizer must carry the configured "
+        "keep flag / dedicated flag / recycle rate / timeout, and enforce them); non-trivial = at least one fault, "
+        "unusable answer, abandoned run or a second run in the process; distinct = distinct case")
 EXHAUSTIVE = {"quick": False, "thorough": True}
 ASSUMPTIONS = ["os.kill(pid, SIGKILL) succeeds and ends the worker (kill_succeeds); a kill that fails with OSError "
                "leaves a live forgotten worker by construction (equalizer.py:269-274)",
@@ -30,11 +36,20 @@ ASSUMPTIONS = ["os.kill(pid, SIGKILL) succeeds and ends the worker (kill_succeed
                "processes); deaths inside the few microseconds of a non-blocking call are not sampled",
                "one modelled poll = one second of the fake clock; real wall time, zombies and signal delivery are "
                "runtime residue (sampled by the real-process scripts of the thorough tier)",
-               "closing / dropping a suspended generator runs its finally block (Python semantics)"]
+               "closing / dropping a suspended generator runs its finally block (Python semantics)",
+               "several runs in one process: the workers of ALL runs poll whenever the parent blocks (in a get or in a "
+               "join); a run that starts or continues right after another one ended does so before the ended run's idle "
+               "worker polls again (the 50 ms window is always hit); multiprocessing primitives the module creates at "
+               "import time (class attributes, module globals) are replaced by one simulated stand-in each, shared "
+               "exactly as the original is"]
 TRUSTED = ["fake multiprocessing / clock / kill (harness/impl/fake_mp.py) under the real Equalizer",
            "real-process scripts (thorough tier; two of them also in the quick tier) are checked by the direct "
            "predicate only; an anomaly must reproduce three times; a parent that blocks for ever is interrupted by "
-           "a SIGALRM watchdog after 15 s"]
+           "a SIGALRM watchdog after 15 s",
+           "watchdogs of the simulator (a check never hangs): a worker loop that polls its task queue 200 times in one "
+           "turn without consulting a simulated terminate flag is declared blind to it (stays alive: worker-left-behind); "
+           "a parent that polls more than 60 times for one task is declared stuck; every simulated case runs under a "
+           "limit of 20 s of processor time (SIGPROF) and 300 s of wall time (SIGALRM): run-blocks-forever"]
 
 ALPHA = ["equal", "different", "player_raises", "extractor_raises", "exit0", "exit1", "hang", "hang_deaf",
          "slow:1", "slow:2", "slow:3", "slow:4", "slow:5", "unloadable", "put_raises"]
@@ -91,16 +106,113 @@ def generate(rng, tier):
         cases.append(G.mk(ids, behs, rate=rng.choice([1, 1, 2, 3]), timeout=rng.choice([1, 2]),
                           consume=G.rand_consume(rng, len(ids)), probe="F08"))
     cases.append(G.mk([1, 2, 3], ["late", "hang", "equal"], rate=1, probe="F08"))     # the refuted theorem's witness
+    cases += several_runs(rng, tier)
     from lib import eqreal
     cases += eqreal.real_cases("C13", tier)
     return cases
 
 
+MULTI_ALPHA = ["equal", "different", "player_raises", "exit0", "exit1", "hang", "hang_deaf", "slow:1", "slow:3",
+               "unloadable", "put_raises", "drops"]
+MULTI_W = [40, 4, 4, 6, 4, 8, 6, 4, 4, 5, 3, 3]
+
+
+def mk_multi(runs, schedule, via="direct", rate=2, timeout=1, keep=False, dedicated=True, **extra):
+    """runs: [(ids, behs, consume)], ids disjoint between the runs"""
+    specs = []
+    for ids, behs, consume in runs:
+        c = G.mk(ids, behs, consume=consume)
+        specs.append(dict(ids=c["ids"], beh=c["beh"], consume=c["consume"]))
+    d = dict(kind="multi", via=via, runs=specs, schedule=list(schedule), dedicated=dedicated, rate=rate, timeout=timeout,
+             keep=keep)
+    d.update(extra)
+    return d
+
+
+def schedules(lens, rng=None):
+    """named ways of consuming several generators: one after the other, round robin (zip), the first run ahead by
+    one / behind by one, random"""
+    steps = [n + 2 for n in lens]
+    rr = [k for j in range(max(steps)) for k in range(len(lens)) if j < steps[k]]
+    out = {"back-to-back": [], "round-robin": rr, "second-first": [k for k in reversed(range(len(lens))) for _ in range(steps[k])],
+           "first-ahead": [0] + rr, "last-ahead": [len(lens) - 1] + rr}
+    if rng is not None:
+        pool = [k for k in range(len(lens)) for _ in range(steps[k])]
+        rng.shuffle(pool)
+        out["random"] = pool
+    return out
+
+
+def several_runs(rng, tier):
+    """several comparison runs alive in one process - the equalizers of one PlaybackStudio (one lazy generator per
+    category) or equalizers built directly - consumed back to back or interleaved: every run must behave exactly as
+    it does alone, and once a run has ended none of its workers may be alive after their next poll, whatever the
+    other runs do.  Also: one run THROUGH the studio with every fault kind (the studio must hand its equalizers
+    the configuration it was given)."""
+    cases = []
+    # (a) deterministic: two short fault-free / one-fault runs, every schedule, rates 1-3, both routes
+    short = [([1, 2], ["equal", "equal"]), ([1, 2, 3], ["equal", "equal", "equal"]), ([1, 2, 3], ["equal", "hang", "equal"]),
+             ([1], ["equal"]), ([1, 2, 3, 4], ["equal", "exit0", "equal", "equal"])]
+    k = 0
+    for a_ids, a_beh in short:
+        for b_ids, b_beh in short:
+            b_ids = [100 + i for i in b_ids]
+            for name, sch in sorted(schedules([len(a_ids), len(b_ids)]).items()):
+                k += 1
+                if tier == "quick" and k % 2:
+                    continue
+                rate = 1 + k % 3 if k % 7 else 5
+                cases.append(mk_multi([(a_ids, a_beh, ("full",)), (b_ids, b_beh, ("full",))], sch,
+                                      via=["direct", "studio"][k % 2], rate=rate, timeout=1 + k % 2, keep=bool(k % 3 == 0),
+                                      probe="several-runs:" + name))
+    # (b) random: 2-3 runs, any fault, any abandonment, any schedule
+    for _ in range(60 if tier == "quick" else 800):
+        via = rng.choice(["direct", "studio"])
+        runs = []
+        for r in range(rng.choice([2, 2, 2, 3])):
+            ids, behs = G.rand_script(rng, MULTI_ALPHA, MULTI_W, 6, dup=0.0)
+            if via == "studio" and not ids:
+                ids, behs = [1], ["equal"]
+            ids = [100 * r + i for i in ids]
+            consume = G.rand_consume(rng, len(ids))
+            if via == "studio" and consume[0] == "iter_raises":
+                consume = ("close", consume[1])
+            runs.append((ids, behs, consume))
+        name, sch = rng.choice(sorted(schedules([len(r[0]) for r in runs], rng).items()))
+        cases.append(mk_multi(runs, sch, via=via, rate=rng.choice([1, 2, 2, 3, 5, 0]), timeout=rng.choice([1, 1, 2, 3]),
+                              keep=rng.random() < 0.3, probe="several-runs:" + name))
+    # (c) ONE run through the studio: each fault kind at each position of a short run, timeouts 0-3, rates 1-3
+    alpha = ["equal", "hang", "hang_deaf", "exit1", "slow:2", "drops"]
+    k = 0
+    for ids, behs in G.exhaustive(alpha, 3):
+        k += 1
+        if not ids or all(b == "equal" for b in behs) or (tier == "quick" and len(ids) == 3 and k % 4):
+            continue
+        cases.append(mk_multi([(ids, behs, ("full",) if k % 3 else ("close", len(ids)))], [], via="studio", rate=1 + k % 3,
+                              timeout=k % 4, keep=bool(k % 2), probe="through-the-studio"))
+    for _ in range(20 if tier == "quick" else 300):
+        ids, behs = G.rand_script(rng, MULTI_ALPHA, MULTI_W, 8, dup=0.1)
+        if not ids:
+            continue
+        c = G.rand_consume(rng, len(ids))
+        cases.append(mk_multi([(ids, behs, c if c[0] != "iter_raises" else ("full",))], [], via="studio",
+                              rate=rng.choice([1, 2, 3, 5, 0, 7]), timeout=rng.choice([0, 1, 2, 3]), keep=rng.random() < 0.3,
+                              probe="through-the-studio"))
+    return cases
+
+
+def sub_case(case, k):
+    """run k of a multi-run case as a single-run case"""
+    sp = case["runs"][k]
+    return dict(ids=sp["ids"], beh=sp["beh"], consume=sp.get("consume", ["full"]), dedicated=case["dedicated"],
+                rate=case["rate"], timeout=case["timeout"], keep=case["keep"])
+
+
 def to_gallina(case, obs):
-    if case.get("kind") == "real":
-        return None
+    if case.get("kind") in ("real", "multi"):
+        return None      # several runs: each run is compared with the same run alone (which the model covers)
     bad = "Case %s [] Full (Trace [] [] [] (0%%nat, 0%%nat) false false 0%%nat FuelOut)" % G.g_cfg(case)
-    if "driver_exception" in obs:
+    if "driver_exception" in obs or "watchdog" in obs:
         return bad
     try:
         workers = glist([gpair(glist([gnat(i) for i in served]), gnat(G.STATE_CODE[s0]), gnat(G.STATE_CODE[s1]))
@@ -126,6 +238,42 @@ def direct(case, obs):
     if case.get("kind") == "real":
         from lib import eqreal
         return eqreal.direct_c13(case, obs)
+    if "watchdog" in obs:
+        return [("run-blocks-forever", obs["watchdog"])]
+    if case.get("kind") == "multi":
+        return direct_multi(case, obs)
+    return direct_single(case, obs)
+
+
+def direct_multi(case, obs):
+    fails = []
+    want_cfg = [case["keep"], case["dedicated"], case["rate"], case["timeout"]]
+    for k, run in enumerate(obs["runs"]):
+        sub = sub_case(case, k)
+        who = "run %d of %d (%s, %s)" % (k + 1, len(obs["runs"]), case["via"], case.get("probe", ""))
+        # the equalizer of this run enforces the configuration the caller gave (to the studio / to the equalizer)
+        if run.get("cfg_seen") != want_cfg:
+            fails.append(("configuration-not-handed-on", "%s: configured [keep, dedicated, recycle rate, timeout] = %s, the "
+                          "run's equalizer has %s" % (who, want_cfg, run.get("cfg_seen"))))
+        if run["outcome"] in ("not-finished", "no-generator"):
+            if run["outcome"] == "no-generator":
+                fails.append(("run-aborted", "%s: no comparison generator" % who))
+            continue
+        run = dict(run, why=obs.get("why"))
+        fails += [(sg, "%s: %s" % (who, m)) for sg, m in direct_single(sub, run)]
+        # ... and the run is the run it is alone: verdicts, polls per task, tasks per worker, births and deaths
+        alone = obs["alone"][k]
+        for key in ("cmps", "outcome", "workers", "polls", "events", "left", "lock", "term", "max_live"):
+            if run[key] != alone[key] and run["outcome"] != "deadlock":
+                fails.append(("runs-interfere", "%s: %s is %s, alone it is %s" % (who, key, run[key], alone[key])))
+                break
+        if run.get("still_alive"):
+            fails.append(("worker-left-behind", "%s: worker(s) %s still alive when every run has ended"
+                          % (who, run["still_alive"])))
+    return fails
+
+
+def direct_single(case, obs):
     fails = []
     ids, T, rate = case["ids"], case["timeout"], case["rate"]
     known = G.f08_sig(case)
@@ -190,22 +338,48 @@ def direct(case, obs):
 
 
 def features(case):
+    if case.get("kind") == "multi":
+        f = set(["mode:several-runs-in-one-process" if len(case["runs"]) > 1 else "mode:one-run-through-the-studio",
+                 "via:" + case["via"], "runs=%d" % len(case["runs"]), "probe:" + case.get("probe", "-")])
+        for k in range(len(case["runs"])):
+            f |= set(x for x in G.features(sub_case(case, k)) if x.startswith(("beh:", "consume:", "rate=", "timeout=")))
+        return f
     return G.features(case)
 
 
 def nontrivial(case):
+    if case.get("kind") == "multi":
+        return len(case["runs"]) > 1 or any(nontrivial(sub_case(case, k)) for k in range(len(case["runs"])))
     return any(G.fatal_dedicated(G.beh_of(case, i), case["timeout"]) or G.beh_of(case, i) in G.ANSWER_BEH
                for i in case["ids"]) or case.get("consume", ["full"])[0] != "full"
 
 
 def shrink_candidates(case):
     from props import c08
+    if case.get("kind") == "multi":
+        return shrink_multi(case)
     return c08.shrink_candidates(case)
+
+
+def shrink_multi(case):
+    from props import c08
+    runs = case["runs"]
+    if len(runs) > 1:
+        for k in range(len(runs)):
+            yield dict(case, runs=runs[:k] + runs[k + 1:],
+                       schedule=[j - (j > k) for j in case["schedule"] if j != k])
+    for k in range(len(runs)):
+        for c in c08.shrink_candidates(sub_case(case, k)):
+            if case["via"] == "studio" and not c["ids"]:
+                continue
+            yield dict(case, runs=runs[:k] + [dict(ids=c["ids"], beh=c["beh"], consume=c["consume"])] + runs[k + 1:])
+    if case["schedule"]:
+        yield dict(case, schedule=[])
 
 
 def search_harder(rng, bad_cases):
     out = []
-    for c in bad_cases[:10]:
+    for c in [b for b in bad_cases if b.get("kind") != "multi"][:10]:
         for rate in (1, 2, 3):
             for mode in ("full", "close"):
                 out.append(dict(c, rate=rate, consume=[mode] if mode == "full" else [mode, max(1, len(c["ids"]) - 1)]))
@@ -214,7 +388,7 @@ def search_harder(rng, bad_cases):
 
 MANIFEST = dict(
     design_ref='6/C13',
-    text="Coq theorems over all scripts, recycle rates, timeouts and abandonment points about the same hand-written model of the equalizer's dispatch / wait / timeout / recycle logic and worker loop as C08: the wait for one result performs at most timeout+1 one-second polls and never runs out of fuel (for every script, late answers included); for scripts of hangs, exits, slow answers and answers the parent cannot use (unloadable item, (False, message)) the run always completes, its modelled duration is the sum of the per-recording costs, after a fault no worker is alive and the next recording is served by a worker that has served nothing else, no worker takes more than max(1, rate) tasks, and after completion or abandonment after any number of yields every worker is dead or idle-and-told-to-terminate and dead after one more step; the late-answer case (parent blocks forever in join, hung worker leaked) is refuted with a witness (known finding F08). Tie: the REAL Equalizer over fake multiprocessing/clock/kill; the full trace (polls per task, tasks per worker, worker states, births/deaths/kills, queue leftovers, flag, clock) is compared with the model by vm_compute; the simulator also tracks where an idle worker sleeps (a worker that dies inside Queue.get leaves the read lock held, one that dies inside Event.wait stays a registered sleeper and the next Event.set blocks forever), with streams of idle deaths (worker dies before taking its task, idle worker killed at the timeout) and of failures that leave the worker in place at every position of short runs; direct predicate on the simulator's observables and, in the thorough tier (two anchor scripts also in the quick tier), on real processes (no active children within ~1 s after completion/abandonment, tasks per worker pid <= rate, wall time per comparison bounded).",
+    text="Coq theorems over all scripts, recycle rates, timeouts and abandonment points about the same hand-written model of the equalizer's dispatch / wait / timeout / recycle logic and worker loop as C08: the wait for one result performs at most timeout+1 one-second polls and never runs out of fuel (for every script, late answers included); for scripts of hangs, exits, slow answers and answers the parent cannot use (unloadable item, (False, message)) the run always completes, its modelled duration is the sum of the per-recording costs, after a fault no worker is alive and the next recording is served by a worker that has served nothing else, no worker takes more than max(1, rate) tasks, and after completion or abandonment after any number of yields every worker is dead or idle-and-told-to-terminate and dead after one more step; the late-answer case (parent blocks forever in join, hung worker leaked) is refuted with a witness (known finding F08). Tie: the REAL Equalizer over fake multiprocessing/clock/kill; the full trace (polls per task, tasks per worker, worker states, births/deaths/kills, queue leftovers, flag, clock) is compared with the model by vm_compute; the simulator also tracks where an idle worker sleeps (a worker that dies inside Queue.get leaves the read lock held, one that dies inside Event.wait stays a registered sleeper and the next Event.set blocks forever), with streams of idle deaths (worker dies before taking its task, idle worker killed at the timeout) and of failures that leave the worker in place at every position of short runs; several runs alive in one simulated process (equalizers built directly or by one PlaybackStudio, consumed back to back or interleaved under named and random schedules) must each equal the same run alone (verdicts, polls per task, tasks per worker, births/deaths, flag, leftovers) and leave no worker alive after its next poll once the run has ended, and a run started through PlaybackStudio must carry and enforce the configured timeout / recycle rate / flags (implementation-only cases: the single-run model covers each run alone); direct predicate on the simulator's observables and, in the thorough tier (two anchor scripts also in the quick tier), on real processes (no active children within ~1 s after completion/abandonment, tasks per worker pid <= rate, wall time per comparison bounded).",
     note='Trusted: Coq kernel + vm_compute; hand-written model; the scheduling implemented by the fake multiprocessing layer; os.kill(SIGKILL) succeeds; real wall time, zombies and signal delivery are not claimed by theorem (real-process scripts sample them, an anomaly must reproduce three times).',
     technique='Coq proof (invariant over the parent loop, measure on the wait loop) + model/implementation correspondence by vm_compute over a deterministic multiprocessing simulator + real-process sampling',
 )
